@@ -60,6 +60,9 @@ enum Harm {
     DenyExisting(u8),
     /// A closed cycle of (unsigned) DNAME records in the insecure zone.
     DnameLoop,
+    /// A signed NSEC3 record whose owner label is not a Base32hex string (as
+    /// the proof of a final NXDOMAIN; as all there is in a DS response).
+    HostileNsec3,
 }
 
 #[derive(Default)]
@@ -155,7 +158,7 @@ fn harm_in(r: &mut Resp, h: Harm, world: &World, infra: bool) -> bool {
     use domain::rdata::ZoneRecordData as D;
     let is_sig = |rec: &super::dnssec_world::SRec| rec.rtype() == Rtype::RRSIG;
     match h {
-        Harm::None | Harm::TransportError | Harm::Nxdomain | Harm::ForgedNxdomainBelowCut | Harm::WildcardReplay | Harm::ForgeDnameCname | Harm::RootKeySwap | Harm::WildcardNsecReplay | Harm::DenyExisting(_) | Harm::DnameLoop => false,
+        Harm::None | Harm::TransportError | Harm::Nxdomain | Harm::ForgedNxdomainBelowCut | Harm::WildcardReplay | Harm::ForgeDnameCname | Harm::RootKeySwap | Harm::WildcardNsecReplay | Harm::DenyExisting(_) | Harm::DnameLoop | Harm::HostileNsec3 => false,
         Harm::ForeignSigner => {
             // One signed RRset of the answer section.
             let covered: Vec<(String, Rtype)> = r
@@ -353,6 +356,13 @@ impl SendRequest<RequestMessage<Vec<u8>>> for Upstream {
                         r = Resp { rcode_nx: true, ..Default::default() };
                         applied = true;
                     }
+                    Harm::HostileNsec3 if qtype == Rtype::DS => {
+                        // "No DS here", says an NSEC3 record with an owner
+                        // label that is no hash.
+                        r = Resp { authority: w.hostile_nsec3.clone(), ..Default::default() };
+                        applied = true;
+                        sim::stat("fault.nsec3_owner_label_that_is_no_hash");
+                    }
                     _ => applied = harm_in(&mut r, h, w, true),
                 }
                 if applied {
@@ -425,7 +435,7 @@ impl Scenario for ValidatorScn {
     }
 }
 
-const QUERIES: [(&str, Rtype, &str); 36] = [
+const QUERIES: [(&str, Rtype, &str); 37] = [
     ("www.zone.tld.", Rtype::A, "positive"),
     ("www.zone.tld.", Rtype::TXT, "positive"),
     ("zone.tld.", Rtype::SOA, "positive"),
@@ -462,6 +472,7 @@ const QUERIES: [(&str, Rtype, &str); 36] = [
     // An unsigned DNAME in the insecure zone that leads into the secure one:
     // the signed data at the end does not make the answer secure.
     ("www.dn.unsigned.tld.", Rtype::A, "insecure-dname"),
+    ("nope.evil.tld.", Rtype::A, "nxdomain"),
     ("plain.tld.", Rtype::TXT, "positive-tld"),
     ("other.", Rtype::TXT, "positive-root"),
 ];
@@ -612,6 +623,7 @@ async fn run(_tier: Tier) {
                     Harm::DenyExisting(2),
                     Harm::DenyExisting(3),
                     Harm::DnameLoop,
+                    Harm::HostileNsec3,
                 ],
             )
         } else {
@@ -642,6 +654,15 @@ async fn run(_tier: Tier) {
                 Some(f) => {
                     r = f;
                     sim::stat("fault.dname_cname_redirected");
+                    true
+                }
+                None => false,
+            }
+        } else if final_harm == Harm::HostileNsec3 {
+            match w.forged_hostile_nsec3(qname, qtype) {
+                Some(f) => {
+                    r = f;
+                    sim::stat("fault.nsec3_owner_label_that_is_no_hash");
                     true
                 }
                 None => false,
@@ -689,7 +710,7 @@ async fn run(_tier: Tier) {
             sim::stat("fault.final_response_tampered");
         }
         let infra_harm = if adversarial && sim::chance("harm.infra", 1, 3) {
-            Some(*sim::pick("harm.infra_kind", &[Harm::DropRrsig, Harm::ReplaceRdata, Harm::FlipSignature, Harm::StripDs, Harm::TransportError, Harm::WrongKeyTag, Harm::Nxdomain, Harm::ExtendSigValidity]))
+            Some(*sim::pick("harm.infra_kind", &[Harm::DropRrsig, Harm::ReplaceRdata, Harm::FlipSignature, Harm::StripDs, Harm::TransportError, Harm::WrongKeyTag, Harm::Nxdomain, Harm::ExtendSigValidity, Harm::HostileNsec3]))
         } else {
             None
         };
